@@ -44,6 +44,7 @@ def main():
         z3.Solver.check = _check
 
         import crosshair.core_and_libs  # noqa: F401  (registers library models)
+        out['patches'] = chpatch.post_import()
         from crosshair import core
         from crosshair.options import AnalysisOptionSet, AnalysisKind
         from crosshair.statespace import MessageType
